@@ -294,6 +294,11 @@ func (o SOp) String() string {
 		s += fmt.Sprintf(" %s -> %q", o.Name, o.Target)
 	case "mnt":
 		s += fmt.Sprintf(" as %q", o.Target)
+	case "commit":
+		s += fmt.Sprintf(" off=%d count=%d", o.Off, o.Count)
+		if o.Mask == faultOpenW {
+			s += " [backend refuses write-mode opens]"
+		}
 	case "rename":
 		s += fmt.Sprintf(" %s => %s %s", o.Name, o.Dir2, o.Name2)
 	case "read":
